@@ -114,6 +114,10 @@ def generate(seed, h, tier):
                 faults[str(ji)] = [{"seam": "write", "at": fr.randrange(3), "kind": fr.pick(["enospc", "eio", "short"]), "k": fr.randrange(300)}]
             else:
                 faults[str(ji)] = [{"seam": "read", "at": fr.randrange(15), "kind": fr.pick(["enoent", "eio", "parse", "truncated"])}]
+                if fr.chance(0.4):
+                    # the very first table read of the process (the country head-count table) torn: what a
+                    # process-wide cache filled before validation would keep
+                    faults[str(ji)] = [{"seam": "read", "at": 0, "kind": "truncated"}]
     return {"h": h, "cells": cells, "faults": faults}
 
 
